@@ -294,6 +294,16 @@ func (cs *contentStore) mapCollection(auth, key, collectionID string, ct Content
 }
 
 func saveKey(auth string, key *keyContent) error {
+	// a key content without private key material runs no importer: the auth token has to be checked here,
+	// or the call would report success for any token, even on a locked wallet.
+	if len(key.PrivateKeyJwk) == 0 && key.PrivateKeyBase58 == "" {
+		if _, err := sessionManager().getSession(auth); err != nil {
+			return wrapSessionError(err)
+		}
+
+		return nil
+	}
+
 	if len(key.PrivateKeyJwk) > 0 {
 		err := importKeyJWK(auth, key)
 		if err != nil {
